@@ -80,7 +80,7 @@ NUMERIC = {
     "Bin": ["low", "high", "entries"],
     "SparselyBin": ["binWidth", "entries", "origin"],
 }
-JUNK_NUM = ["abc", [], {}]
+JUNK_NUM = ["abc", [], {}, None, ""]
 
 
 def positions(node, frag, path):
@@ -189,28 +189,31 @@ def mutants(sp, doc):
     for v, nm in ((5, "non-string"), ("NoSuchPrimitive", "unregistered"), ([], "list")):
         out.append(("header:type-" + nm, ["type"], _set(doc, ["type"], v)))
     out.append(("header:not-an-object", [], [doc]))
+    out.append(("header:add-key", ["__unknown__"], _set(doc, ["__unknown__"], 1)))
     for path, role, info in positions(sp, doc["data"], ["data"]):
         cur = _get(doc, path)
         if role == "count":
-            for j in ("abc", [], {}, None):
+            for j in ("abc", [], {}, None, ""):
                 out.append(("count:retype", path, _set(doc, path, j)))
             out.append(("entries:-1", path, _set(doc, path, -1)))
         elif role == "struct":
             for key in REQ[info]:
                 out.append(("struct:delete-key", path + [key], _del(doc, path + [key])))
             out.append(("struct:add-key", path + ["__unknown__"], _set(doc, path + ["__unknown__"], 1)))
-            for j in (3.5, "abc", [], None):
+            for j in (3.5, "abc", [], None, 0, ""):
                 out.append(("struct:fragment-retype", path, _set(doc, path, j)))
             out.append(("entries:-1", path + ["entries"], _set(doc, path + ["entries"], -1)))
         elif role == "number":
             for j in JUNK_NUM:
                 out.append(("number:retype", path, _set(doc, path, j)))
         elif role == "name":
-            out.append(("name:retype", path, _set(doc, path, 5)))
+            for j in (5, 0, [], {}, False, 2.5):
+                out.append(("name:retype", path, _set(doc, path, j)))
         elif role == "string":
-            out.append(("string:retype", path, _set(doc, path, 5)))
+            for j in (5, 0, [], None):
+                out.append(("string:retype", path, _set(doc, path, j)))
         elif role == "typename":
-            for j in (5, [], "NoSuchPrimitive"):
+            for j in (5, [], 0, None, "", "NoSuchPrimitive"):
                 out.append(("typename:retype" if j != "NoSuchPrimitive" else "typename:unregistered", path, _set(doc, path, j)))
         elif role == "list":
             out.append(("list:to-dict", path, _set(doc, path, {})))
@@ -224,7 +227,7 @@ def mutants(sp, doc):
             m["not-an-int"] = m.pop(path[-1])
             out.append(("sparse-key:non-integer", path, _set(doc, par, m)))
         elif role == "element":
-            for j in (7, None, {}, "abc", []):
+            for j in (7, None, {}, "abc", [], 0, ""):
                 out.append(("element:replace", path, _set(doc, path, j)))
             for key in info:
                 out.append(("element:missing-" + ("key"), path + [key], _del(doc, path + [key])))
